@@ -58,47 +58,47 @@
          'claims':'Exclusion::weighted<XY>/<SD> build the interval [xmin,xmax] unchanged, closed flag clear, with weight sum >= 0 for non-negative weights and >= 0.5 for the initial interval (f = 1, m = 0)'}@*/
 
 /* ---- level 1: the vector mutators (dfcc enforce, bounded: element-wise contract over 8 slots) */
-/*@unit {'name':'c17_vec_insert_c8', 'props':['C17'], 'entry':'h_vec_insert', 'enforce':'Vector_insert', 'kind':'bounded', 'unwind':9, 'loop_contracts':False, 'defines':['CAPV=8'], 'cost':60,
+/*@unit {'name':'c17_vec_insert_c8', 'props':['C17'], 'entry':'h_vec_insert', 'enforce':'Vector_insert', 'kind':'bounded', 'backend':'cadical', 'unwind':9, 'loop_contracts':False, 'defines':['CAPV=8'], 'cost':60,
          'bound':'capacity 8 (what Zones() reserves), 0..7 elements before the call, any insertion point; loops of the element-wise libc models and of the ghost snapshot unwound 8 times',
          'claims':'Vector<Exclusion>::insert(p,x) with _insert_default and reserve: size grows by one, the returned iterator addresses slot p-begin(), slots before it keep their value, the slot holds x, later slots hold their left neighbour\'s old value (bit-wise); the storage block is kept (the size rounded up to 8 fits); no access outside the exact-size storage object; only the vector is written'}@*/
-/*@unit {'name':'c17_vec_insert_c4', 'props':['C17'], 'entry':'h_vec_insert', 'enforce':'Vector_insert', 'kind':'bounded', 'unwind':9, 'loop_contracts':False, 'defines':['CAPV=4'], 'cost':60,
+/*@unit {'name':'c17_vec_insert_c4', 'props':['C17'], 'entry':'h_vec_insert', 'enforce':'Vector_insert', 'kind':'bounded', 'backend':'cadical', 'unwind':9, 'loop_contracts':False, 'defines':['CAPV=4'], 'cost':60,
          'bound':'capacity 4 (a full or nearly full block smaller than 8), 0..4 elements before the call; loops unwound 8 times',
          'claims':'Vector<Exclusion>::insert(p,x) when the block must grow: same element-wise result, the storage moves to a fresh block of 8, the old block is freed and the returned iterator points into the new block'}@*/
-/*@unit {'name':'c17_vec_erase_c8', 'props':['C17'], 'entry':'h_vec_erase', 'enforce':'Vector_erase', 'kind':'bounded', 'unwind':9, 'loop_contracts':False, 'defines':['CAPV=8'], 'cost':40,
+/*@unit {'name':'c17_vec_erase_c8', 'props':['C17'], 'entry':'h_vec_erase', 'enforce':'Vector_erase', 'kind':'bounded', 'backend':'cadical', 'unwind':9, 'loop_contracts':False, 'defines':['CAPV=8'], 'cost':40,
          'bound':'capacity 8, 1..8 elements; destructor loop, libc-model loops and ghost snapshot unwound 8 times',
          'claims':'Vector<Exclusion>::erase(p): size shrinks by one, storage and capacity are kept, slots before p keep their value, slots from p on hold their right neighbour\'s old value, the returned iterator is p; no access outside the storage object'}@*/
-/*@unit {'name':'c17_vec_erase_c4', 'props':['C17'], 'entry':'h_vec_erase', 'enforce':'Vector_erase', 'kind':'bounded', 'unwind':9, 'loop_contracts':False, 'defines':['CAPV=4'], 'cost':40,
+/*@unit {'name':'c17_vec_erase_c4', 'props':['C17'], 'entry':'h_vec_erase', 'enforce':'Vector_erase', 'kind':'bounded', 'backend':'cadical', 'unwind':9, 'loop_contracts':False, 'defines':['CAPV=4'], 'cost':40,
          'bound':'capacity 4, 1..4 elements; loops unwound 8 times', 'claims':'same as c17_vec_erase_c8 for a block of 4'}@*/
 
 /* ---- level 2: the interval-set operations (plain harness, Vector::insert/erase applied by contract) */
-/*@unit {'name':'c17_remove_c8', 'props':['C17'], 'entry':'h_remove', 'kind':'bounded', 'unwind':9, 'unwindset':['Zones_remove.0:7'], 'loop_contracts':False, 'defines':['NV=4','CAPV=8','L2_BY_CONTRACT'], 'cost':50,
+/*@unit {'name':'c17_remove_c8', 'props':['C17'], 'entry':'h_remove', 'kind':'bounded', 'backend':'cadical', 'unwind':9, 'unwindset':['Zones_remove.0:7'], 'loop_contracts':False, 'defines':['NV=4','CAPV=8','L2_BY_CONTRACT'], 'cost':50,
          'bound':'at most 4 intervals before the call in a block of capacity 8 (no reallocation); main loop unwound 6 times, helper loops 8 times, unwinding assertions on',
          'replay':'c17_zones', 'witness_defines':[], 'witness_vars':['w_n','w_x','w_xm','w_c','w_sm','w_smx','w_pos','w_posm','w_a','w_b','w_pt'],
          'claims':'Zones::remove(x,xm) on a sorted, disjoint, in-bounds interval set leaves it sorted, disjoint and in bounds; afterwards no interval contains a point of the open range (x,xm); every point offered afterwards was offered before (nothing is re-opened); every point offered before and outside [x,xm] is still offered; weight sums stay positive; only the vector changes; Vector::insert/erase are called within their contracts'}@*/
-/*@unit {'name':'c17_remove_c4', 'props':['C17'], 'entry':'h_remove', 'kind':'bounded', 'unwind':9, 'unwindset':['Zones_remove.0:7'], 'loop_contracts':False, 'defines':['NV=4','CAPV=4','L2_BY_CONTRACT'], 'cost':50,
+/*@unit {'name':'c17_remove_c4', 'props':['C17'], 'entry':'h_remove', 'kind':'bounded', 'backend':'cadical', 'unwind':9, 'unwindset':['Zones_remove.0:7'], 'loop_contracts':False, 'defines':['NV=4','CAPV=4','L2_BY_CONTRACT'], 'cost':50,
          'bound':'at most 4 intervals in an exact-size block of capacity 4: every split reallocates (storage moves, old block freed); loops as in c17_remove_c8',
          'replay':'c17_zones', 'witness_defines':[], 'witness_vars':['w_n','w_x','w_xm','w_c','w_sm','w_smx','w_pos','w_posm','w_a','w_b','w_pt'],
          'claims':'same as c17_remove_c8 when the split has to grow the vector: the iterator is re-seated on the new block and the freed block is never touched; with 4 live intervals any access past the live elements is outside the storage object'}@*/
-/*@unit {'name':'c17_insert_c8', 'props':['C17'], 'entry':'h_insert', 'kind':'bounded', 'unwind':9, 'unwindset':['Zones_insert.0:7'], 'loop_contracts':False, 'defines':['NV=4','CAPV=8','L2_BY_CONTRACT'], 'cost':80,
+/*@unit {'name':'c17_insert_c8', 'props':['C17'], 'entry':'h_insert', 'kind':'bounded', 'backend':'cadical', 'unwind':9, 'unwindset':['Zones_insert.0:7'], 'loop_contracts':False, 'defines':['NV=4','CAPV=8','L2_BY_CONTRACT'], 'cost':80,
          'bound':'at most 4 intervals before the call in a block of capacity 8; main loop unwound 6 times, helper loops 8 times',
          'replay':'c17_zones', 'witness_defines':[], 'witness_vars':['w_n','w_x','w_xm','w_c','w_sm','w_smx','w_pos','w_posm','w_a','w_b','w_pt','w_ec','w_esm','w_esmx'],
          'claims':'Zones::insert(e) (weighted insert) keeps the interval set sorted, disjoint and in bounds and does not change the set of offered points (it never re-opens an excluded position and never loses a free one); a point strictly inside an interval and strictly inside e gets exactly e added to its three cost terms, a point strictly inside an interval and outside [e.x,e.xm] keeps its cost terms; weight sums stay positive for non-negative e.sm; only the vector changes'}@*/
-/*@unit {'name':'c17_insert_c4', 'props':['C17'], 'entry':'h_insert', 'kind':'bounded', 'unwind':9, 'unwindset':['Zones_insert.0:7'], 'loop_contracts':False, 'defines':['NV=4','CAPV=4','L2_BY_CONTRACT'], 'cost':80,
+/*@unit {'name':'c17_insert_c4', 'props':['C17'], 'entry':'h_insert', 'kind':'bounded', 'backend':'cadical', 'unwind':9, 'unwindset':['Zones_insert.0:7'], 'loop_contracts':False, 'defines':['NV=4','CAPV=4','L2_BY_CONTRACT'], 'cost':80,
          'bound':'at most 4 intervals in an exact-size block of capacity 4: the first split reallocates; loops as in c17_insert_c8',
          'replay':'c17_zones', 'witness_defines':[], 'witness_vars':['w_n','w_x','w_xm','w_c','w_sm','w_smx','w_pos','w_posm','w_a','w_b','w_pt','w_ec','w_esm','w_esmx'],
          'claims':'same as c17_insert_c8 when a split has to grow the vector (iterators re-seated, freed block never touched)'}@*/
-/*@unit {'name':'c17_exclude_margins', 'props':['C17'], 'entry':'h_exclude_margins', 'kind':'bounded', 'unwind':9, 'unwindset':['Zones_remove.0:5','Zones_insert.0:8'], 'loop_contracts':False, 'defines':['NV=2','CAPV=8','L2_BY_CONTRACT'], 'cost':90,
+/*@unit {'name':'c17_exclude_margins', 'props':['C17'], 'entry':'h_exclude_margins', 'kind':'bounded', 'backend':'cadical', 'unwind':9, 'unwindset':['Zones_remove.0:5','Zones_insert.0:8'], 'loop_contracts':False, 'defines':['NV=2','CAPV=8','L2_BY_CONTRACT'], 'cost':90,
          'bound':'at most 2 intervals before the call (at most 7 during it), capacity 8; loops unwound up to 8 times',
          'replay':'c17_zones', 'witness_defines':[], 'witness_vars':['w_n','w_x','w_xm','w_c','w_sm','w_smx','w_pos','w_posm','w_a','w_b','w_pt','w_axis','w_mlen','w_mwt'],
          'claims':'Zones::exclude_with_margins(xmin,xmax,axis) = remove + two margin-weight inserts: the set stays sorted, disjoint and in bounds, offers no point of (xmin,xmax), offers nothing that was not offered before, keeps every point outside [xmin,xmax], and keeps weight sums positive for a non-negative margin weight'}@*/
-/*@unit {'name':'c17_closest', 'props':['C17'], 'entry':'h_closest', 'kind':'bounded', 'unwind':9, 'loop_contracts':False, 'defines':['NV=6','CAPV=6','L2_BY_CONTRACT'], 'cost':30,
+/*@unit {'name':'c17_closest', 'props':['C17'], 'entry':'h_closest', 'kind':'bounded', 'backend':'cadical', 'unwind':9, 'loop_contracts':False, 'defines':['NV=6','CAPV=6','L2_BY_CONTRACT'], 'cost':30,
          'bound':'at most 6 intervals in an exact-size block; all loops unwound 8 times',
          'replay':'c17_zones', 'witness_defines':[], 'witness_vars':['w_n','w_x','w_xm','w_c','w_sm','w_smx','w_pos','w_posm','w_a'],
          'claims':'Zones::closest(origin,cost) on a sorted disjoint set whose intervals have non-zero weight sums and finite linear terms: either reports cost -1 (no candidate; this is what ShiftCollider::resolve reads as "no free point on this axis") or returns a position that lies inside one of the free intervals; an empty set always reports -1; reads stay inside the live elements (iterators begin()-1 / start-1 are formed but never dereferenced); nothing is written but *cost'}@*/
-/*@unit {'name':'c17_find_under', 'props':['C17'], 'entry':'h_find_under', 'kind':'bounded', 'unwind':9, 'loop_contracts':False, 'defines':['NV=6','CAPV=6','L2_BY_CONTRACT'], 'cost':10,
+/*@unit {'name':'c17_find_under', 'props':['C17'], 'entry':'h_find_under', 'kind':'bounded', 'backend':'cadical', 'unwind':9, 'loop_contracts':False, 'defines':['NV=6','CAPV=6','L2_BY_CONTRACT'], 'cost':10,
          'bound':'at most 6 intervals in an exact-size block; binary-search loop unwound 8 times',
          'claims':'Zones::find_exclusion_under(x) returns an iterator in [begin,end]; every interval before it ends at or before x, every interval after it starts after x, and the interval it addresses (if any) contains x or starts after x; operator[] is called with an index below size()'}@*/
-/*@unit {'name':'c17_initialise', 'props':['C17'], 'entry':'h_initialise', 'kind':'bounded', 'unwind':9, 'loop_contracts':False, 'defines':['NV=4','CAPV=8'], 'cost':20,
+/*@unit {'name':'c17_initialise', 'props':['C17'], 'entry':'h_initialise', 'kind':'bounded', 'backend':'cadical', 'unwind':9, 'loop_contracts':False, 'defines':['NV=4','CAPV=8'], 'cost':20,
          'bound':'a freshly constructed Zones (Zones(): reserve(8) from the empty vector) or a used one with at most 4 intervals in a block of 8; loops unwound 8 times',
          'claims':'Zones::Zones() + Zones::initialise<XY|SD>(xmin,xmax,margin,weight,a0) leave exactly one open interval [xmin,xmax] with weight sum >= 0.5, bounds _pos=xmin, _posm=xmax and the margin parameters stored: sorted, disjoint and in bounds whenever xmin <= xmax'}@*/
 
